@@ -101,10 +101,13 @@ def main():
         rep.count("keyword_name_accepted")
         # the other variables of the statement as Color BASIC itself reads it (CLSX=1 is CLS X=1)
         toks = decblex.lex_body(src.split("\n")[0][3:])
-        extras = [{"name": list(t["s"]), "arr": k + 1 < len(toks) and toks[k + 1]["v"] == "("} for k, t in enumerate(toks) if t["k"] == "id"]
-        groups.setdefault(nm, []).append({"vars": [v1] + extras, "out": b09lex.lex_nonblank(r["out"]), "src": src, "text": r["out"]})
+        alt = [{"name": list(t["s"]), "arr": k + 1 < len(toks) and toks[k + 1]["v"] == "("} for k, t in enumerate(toks) if t["k"] == "id"]
+        # the other variables of the position itself (when the tool does take the name for a variable)
+        extras = ([{"name": [90], "arr": False}] if "Z=" in pos[0] else []) + ([{"name": [90, 36], "arr": False}] if "Z$=" in pos[0] else []) \
+            + ([{"name": [67], "arr": True}] if "C(" in pos[0] else [])
+        groups.setdefault(nm, []).append({"vars": [v1] + extras, "alt": alt, "out": b09lex.lex_nonblank(r["out"]), "src": src, "text": r["out"]})
     for nm, uses in sorted(groups.items()):
-        cases.append({"id": len(cases) + 1, "uses": [{"vars": u["vars"], "out": u["out"]} for u in uses]})
+        cases.append({"id": len(cases) + 1, "uses": [{"vars": u["vars"], "alt": u["alt"], "out": u["out"]} for u in uses]})
         meta.append((" || ".join(u["src"].split("\n")[0] for u in uses), " || ".join(u["text"].strip().split("\n")[0] for u in uses)))
     rep.count("keyword_shaped_names", len(kwnames))
     vds = common.judge("Trace_C09", cases, rep, wd, shard=6000)
